@@ -16,6 +16,7 @@ type Type struct {
 type Field struct {
 	Name string
 	T    *Type
+	Sem  string // HLSL semantic / MSL attribute
 }
 
 var (
@@ -34,7 +35,7 @@ func vecOf(e *Type, n int) *Type { return &Type{K: 'V', Elem: e, N: n} }
 
 func scalarByName(s string) *Type {
 	switch s {
-	case "int", "int32_t":
+	case "int", "int32_t", "char", "uchar", "short", "ushort":
 		return tInt
 	case "uint", "uint32_t", "dword":
 		return tUint
@@ -105,12 +106,14 @@ func builtinType(s string) *Type {
 // ---- syntax tree ----
 
 type node struct {
-	k    string
-	s    string
-	t    *Type
-	kids []*node
-	tk   tok
-	ref  bool // parameter passed by reference (inout / out / T&)
+	k      string
+	s      string
+	t      *Type
+	kids   []*node
+	tk     tok
+	ref    bool   // parameter passed by reference (inout / out / T&)
+	sem    string // parameter: HLSL semantic / MSL attribute
+	shared bool   // declaration in workgroup (threadgroup) memory
 }
 
 type fn struct {
@@ -137,6 +140,12 @@ type Program struct {
 	typedefs map[string]*Type
 	funcs    map[string]*fn
 	globals  []*global
+	// dispatch parameters (set before Run): the invocation executed is local id (0,0,0) of
+	// workgroup WorkgroupID; workgroup memory initially holds Garbage (cyclically)
+	WorkgroupID   [3]uint32
+	WorkgroupSize [3]uint32
+	Garbage       []uint32
+	garbageAt     int
 	// run-time state
 	genv    map[string]*Val
 	scopes  []map[string]*Val
@@ -233,6 +242,10 @@ func (p *Program) qualifiers() []string {
 	var qs []string
 	for {
 		t := p.peek()
+		if t.k == 'a' {
+			p.next()
+			continue
+		}
 		if t.k == 'i' && isQualifier(t.s) {
 			qs = append(qs, t.s)
 			p.next()
@@ -343,10 +356,14 @@ func (p *Program) structBody(name string) *Type {
 				break
 			}
 			t := p.arraySuffix(ft)
+			sem := ""
 			if p.accept(":") { // HLSL semantic
-				p.next()
+				sem = p.next().s
 			}
-			st.Fields = append(st.Fields, Field{fname.s, t})
+			for p.peek().k == 'a' {
+				sem = p.next().s
+			}
+			st.Fields = append(st.Fields, Field{fname.s, t, sem})
 			if !p.accept(",") {
 				break
 			}
@@ -463,8 +480,12 @@ func (p *Program) topLevel() {
 			}
 			pn := p.next()
 			pt = p.arraySuffix(pt)
+			sem := ""
 			if p.accept(":") {
-				p.next()
+				sem = p.next().s
+			}
+			for p.peek().k == 'a' {
+				sem = p.next().s
 			}
 			space := ""
 			for _, q := range pq {
@@ -472,13 +493,16 @@ func (p *Program) topLevel() {
 					space = q
 				}
 			}
-			f.params = append(f.params, &node{k: "param", s: pn.s, t: pt, ref: byRef})
+			f.params = append(f.params, &node{k: "param", s: pn.s, t: pt, ref: byRef, sem: sem})
 			f.space = append(f.space, space)
 			if !p.accept(",") {
 				break
 			}
 		}
 		p.expect(")")
+		for p.peek().k == 'a' {
+			p.next()
+		}
 		if p.accept(":") { // HLSL return semantic
 			p.next()
 		}
@@ -493,6 +517,9 @@ func (p *Program) topLevel() {
 	for {
 		gt := p.arraySuffix(t)
 		g := &global{name: name.s, t: gt}
+		if has(qs, "groupshared") || has(qs, "shared") || has(qs, "threadgroup") {
+			g.class = "shared"
+		}
 		if p.accept(":") { // HLSL register binding
 			p.next()
 			p.skipGroup("(", ")")
@@ -553,7 +580,8 @@ func (p *Program) isDeclStart() bool {
 }
 
 func (p *Program) declaration() *node {
-	p.qualifiers()
+	dq := p.qualifiers()
+	shared := has(dq, "threadgroup") || has(dq, "groupshared") || has(dq, "shared")
 	t := p.parseType()
 	blk := &node{k: "decls"}
 	for {
@@ -566,7 +594,10 @@ func (p *Program) declaration() *node {
 			break
 		}
 		dt := p.arraySuffix(t)
-		d := &node{k: "decl", s: name.s, t: dt}
+		d := &node{k: "decl", s: name.s, t: dt, shared: shared}
+		for p.peek().k == 'a' {
+			p.next()
+		}
 		if p.accept("=") {
 			d.kids = append(d.kids, p.initializer())
 		} else if p.isP("{") { // T name {a, b}
@@ -795,11 +826,15 @@ func (p *Program) parseUnary() *node {
 		case "(":
 			// C-style cast: ( type ) unary
 			n1 := p.peekAt(1)
-			if n1.k == 'i' && p.typeByName(n1.s) != nil && p.peekAt(2).k == 'p' && p.peekAt(2).s == ")" {
+			if n1.k == 'i' && p.typeByName(n1.s) != nil && p.peekAt(2).k == 'p' && (p.peekAt(2).s == ")" || p.peekAt(2).s == "[") {
+				save := p.pos
 				p.next()
 				ty := p.parseType()
-				p.expect(")")
-				return &node{k: "cast", t: ty, kids: []*node{p.parseUnary()}}
+				ty = p.arraySuffix(ty)
+				if p.accept(")") {
+					return &node{k: "cast", t: ty, kids: []*node{p.parseUnary()}}
+				}
+				p.pos = save // not a cast after all: T[...] was an expression
 			}
 		}
 	}
